@@ -235,7 +235,15 @@ def judge_c04(rec):
     fin = rec['final']
     facts = _history_facts(rec)
     acts = rec['acts']
-    live_kills = [a for a in acts if a['kind'] in ('kill', 'cancel_future') and a['live_before']]
+    # a kill whose future was cancelled by the requester (before it resolved) was withdrawn; one pending when the stepping task was
+    # aborted in the same loop iteration died with the fault (its future says so): neither has to be honoured, but the process must
+    # stay killable (probing kill)
+    withdrawn = {a.get('target') for a in acts if a['kind'] == 'cancel_ret' and a['ret'] == ['value', True]}
+    for a in acts:
+        if a['kind'] == 'kill' and a['ret'] == ['future'] and any(
+                b['kind'] == 'abort_task' and b['slot'] == a['slot'] and b['n'] > a['n'] for b in acts):
+            withdrawn.add(a['n'])
+    live_kills = [a for a in acts if a['kind'] in ('kill', 'cancel_future') and a['live_before'] and a['n'] not in withdrawn]
     if not live_kills:
         return out
     pat = lambda a: '>'.join(act_pattern(rec, upto=a['n'], plan_only=False))  # noqa: E731
@@ -268,7 +276,7 @@ def judge_c04(rec):
         killed = fin['state'] == 'killed'
         for n, desc in rec['futs']:
             a = acts[n]
-            if a['kind'] != 'kill':
+            if a['kind'] != 'kill' or n in withdrawn:
                 continue
             if desc == ['pending']:
                 out.append(V('kill-future-pending', 'kill-future-pending:%s' % pat(a), 'future returned by kill() never resolved'))
